@@ -86,11 +86,11 @@ func checkC14(rc *Run) error {
 		return cases[i].I < cases[j].I
 	})
 	rc.Logf("TLC: CodecLaws/RejectLaw hold; %d cases", len(cases))
-	nsh := rc.Pick(2, 1)
+	nsh := 1 // the whole table takes seconds
 	shard := int(((rc.Seed % int64(nsh)) + int64(nsh)) % int64(nsh))
 	var runs []*codecRun
 	for k, c := range cases {
-		if k%nsh != shard {
+		if !inShard(k, nsh, shard) {
 			continue
 		}
 		base := c.F
